@@ -39,7 +39,9 @@ def run(tier):
         basic, _ = gen.enumerate_blocks(gen.rule_vocab(gen.C5), gen.RULE_SHAPES_BASIC, 3)
         ctx, _ = gen.enumerate_blocks(gen.rule_vocab(gen.C3), gen.RULE_SHAPES_CTX, 3)
         chain, _ = gen.enumerate_blocks(gen.rule_vocab(gen.C3), gen.RULE_SHAPES_CHAIN, 3)
-        blocks = basic + corpus.sample(ctx, 500, seed) + corpus.sample(chain, 1500, seed) + corpus.sample(const_blocks(V13), 800, seed)
+        # every pair (binary operator, consumer operator) with every operand pattern: rules over instruction pairs
+        pairs, _ = gen.enumerate_blocks(gen.rule_vocab(gen.C3), [["S", "T", "B", "O"], ["T", "U", "O"]], 3)
+        blocks = basic + pairs + corpus.sample(ctx, 300, seed) + corpus.sample(chain, 800, seed) + corpus.sample(const_blocks(V13), 400, seed)
         wc = [("WordsCheck1q.cfg", "8-bit (reduced operand set)")]
     else:
         basic, _ = gen.enumerate_blocks(gen.rule_vocab(gen.C9), gen.RULE_SHAPES_BASIC, 3)
